@@ -224,6 +224,8 @@ with ThreadPoolExecutor(max_workers=4) as ex:
     results = list(ex.map(harness, jobs))
 stats = {}
 for r in results:
+    if not r['stats'].get('syscalls'):
+        c.inconclusive('the pkg/fs trace points are not in the tree (fixes/hook-fs.patch not applied): no file-system operation was logged')
     if r['inconclusive']:
         c.inconclusive('harness: ' + '; '.join(r['inconclusive'][:3]))
     for k, v in r['stats'].items():
